@@ -63,8 +63,37 @@ class C06(Prop):
         self.bridge = SwitcherBridge(self.rig.log.callback, [self.port])
         await self.bridge.start()
         self.caps = [_res(c) for c in CAPTURES]
+        self.vnow = 1_790_000_000.0
+        # the same event loop also runs a TCP client that keeps connecting, querying and disconnecting (a real integration
+        # does both): nothing it does may change what the bridge reports
+        from .. import tcpwork
+        import aioswitcher.api as api_mod
+
+        self.trig = tcpwork.Rig(ctx["shard"])
+        self.tdev = await self.trig.device()
+        self.churn_ops = 0
+
+        async def churn():
+            while True:
+                api = api_mod.SwitcherType1Api(self.tdev.ip, "a1b2c3", "18")
+                try:
+                    await api.connect()
+                    await api.get_state()
+                    self.churn_ops += 1
+                finally:
+                    await api.disconnect()
+                self.tdev.conns.clear()
+                await asyncio.sleep(0)
+
+        self.churn = asyncio.ensure_future(churn())
 
     async def teardown(self, ctx):
+        self.churn.cancel()
+        try:
+            await self.churn
+        except BaseException:
+            pass
+        await self.trig.close()
         await self.bridge.stop()
         self.rig.uninstall(asyncio.get_running_loop())
 
@@ -181,7 +210,17 @@ class C06(Prop):
         return bytes(base), ("unknown-model", n, code)
 
     async def run_case(self, case, acc, ctx):
+        from ..ref import clock
+
         r = env.rng("C06", case["seed"])
+        # the wall clock moves between batches: a second, a minute and a bit, hours, a day, now and then backwards
+        self.vnow += r.choice([0.5, 7, 61, 61, 3700, 86400 + 5, -30, -4000])
+        with clock.virtual_time(self.vnow):
+            await self._run_batch(case, acc, r)
+        if self.churn.done():
+            acc.inconclusive_because(f"the background TCP client stopped: {self.churn.exception()!r}")
+
+    async def _run_batch(self, case, acc, r):
         log = self.rig.log
         log.clear()
         judged = []
@@ -243,6 +282,10 @@ class C06(Prop):
         elif judged and len(acc.samples) < 2:
             data, cls = judged[0]
             acc.sample({"class": list(cls), "datagram_len": len(data), "events_attributed": [str(e)[:100] for e in slots[0]]})
+
+
+    def finish(self, acc, ctx):
+        acc.count("tcp_client_cycles_in_the_same_loop", self.churn_ops)
 
 
 PROP = C06()
